@@ -5,6 +5,7 @@ mod db;
 mod flock;
 mod image;
 mod iohook;
+mod stress;
 mod util;
 
 fn arg(args: &[String], name: &str) -> Option<String> {
@@ -26,6 +27,7 @@ fn main() {
         "dump" => std::process::exit(crash::dump(&args)),
         "churn-child" => std::process::exit(crash::churn_child(&args)),
         "flock-child" => std::process::exit(flock::child(&args)),
+        "stress-child" => std::process::exit(stress::child(&args)),
         _ => {}
     }
     let mut sink = util::Sink::new();
@@ -34,6 +36,7 @@ fn main() {
         "churn" => crash::churn(&args, &mut sink),
         "placement" => crash::placement(&args, &mut sink),
         "flock" => flock::run(&args, &mut sink),
+        "stress" => stress::run(&args, &mut sink),
         "core-pp" => core_pp::run(seed, cases, &mut sink),
         "core-mp" => core_mp::run(seed, cases, &mut sink),
         "core-mp-corpus" => {
